@@ -53,6 +53,9 @@ func (s *Suback) Decode(src []byte) (int, error) {
 		return total, err
 	}
 
+	// limit buffer to the packet
+	src = src[:total+rl]
+
 	// read packet id
 	pid, n, err := readUint(src[total:], 2, SUBACK)
 	total += n
